@@ -44,7 +44,7 @@ func (c06) Budget(tier string) int {
 	if tier == "thorough" {
 		return 120000
 	}
-	return 480
+	return 900
 }
 
 // ---------------------------------------------------------------------------
